@@ -318,7 +318,7 @@ def dict_store_keys(func: ast.FunctionDef, target_text: str) -> set:
                 out.add(n.args[0].value)
     return out
 
-def inline_private_helpers(f: "FuncInfo", depth: int = 3) -> ast.FunctionDef:
+def inline_private_helpers(f: "FuncInfo", depth: int = 3, methods: bool = False) -> ast.FunctionDef:
     """A copy of ``f``'s definition in which calls to private module-level helper functions of the same
     module (``_name(...)`` used as a statement or as the whole right-hand side of an assignment) are
     replaced by the helper's body: parameters are bound to the argument expressions, the helper's own
@@ -331,26 +331,66 @@ def inline_private_helpers(f: "FuncInfo", depth: int = 3) -> ast.FunctionDef:
     counter = [0]
     funcs = f.module.functions
 
+    def returns_only_in_ifs(stmts):
+        """Every `return` sits at the top level of the body or of (nested) if-arms."""
+        for st in stmts:
+            if isinstance(st, ast.Return):
+                continue
+            if isinstance(st, ast.If):
+                if not returns_only_in_ifs(st.body) or not returns_only_in_ifs(st.orelse):
+                    return False
+                continue
+            if any(isinstance(n, ast.Return) for n in ast.walk(st)):
+                return False
+        return True
+
     def eligible(g):
-        if g is None or not g.name.startswith("_") or g is f:
+        if g is None or not g.name.startswith("_") or g.name.startswith("__") or g is f or g.is_property or g.is_abstract or g.cache_deps is not None:
             return False
         body = g.body_without_docstring()
         if not body:
             return False
-        for i, st in enumerate(body):
+        for st in body:
             for n in ast.walk(st):
                 if isinstance(n, (ast.FunctionDef, ast.AsyncFunctionDef, ast.Lambda, ast.Yield, ast.YieldFrom)):
                     return False
-                if isinstance(n, ast.Return) and not (n is st and i == len(body) - 1):
-                    return False
+        if not returns_only_in_ifs(body):
+            return False
         a = g.node.args
         return not (a.vararg or a.kwarg)
+
+    def single_exit(stmts, targets):
+        """Replace every `return e` (top level / if-arms) by `targets = e`; code after an arm that
+        returns moves into the other arm.  -> (statements, all paths assigned?)"""
+        out = []
+        for i, st in enumerate(stmts):
+            if isinstance(st, ast.Return):
+                if targets is not None:
+                    out.append(ast.Assign(targets=_copy.deepcopy(targets), value=st.value if st.value is not None else ast.Constant(value=None)))
+                return out, True
+            if isinstance(st, ast.If) and any(isinstance(n, ast.Return) for n in ast.walk(st)):
+                rest = stmts[i + 1 :]
+                b, tb = single_exit(list(st.body), targets)
+                o, to = single_exit(list(st.orelse), targets)
+                if tb and not to:
+                    o, to = single_exit(list(st.orelse) + list(rest), targets)
+                elif to and not tb:
+                    b, tb = single_exit(list(st.body) + list(rest), targets)
+                elif not tb and not to:
+                    out.append(ast.If(test=st.test, body=b or [ast.Pass()], orelse=o))
+                    continue
+                out.append(ast.If(test=st.test, body=b or [ast.Pass()], orelse=o))
+                return out, tb and to
+            out.append(st)
+        return out, False
 
     def expand(g, call, targets, level):
         counter[0] += 1
         pre = f"_h{counter[0]}_"
         a = g.node.args
         params = [x.arg for x in a.posonlyargs + a.args + a.kwonlyargs]
+        if g.cls is not None and params and params[0] == "self":
+            params = params[1:]
         defaults = {}
         pos = a.posonlyargs + a.args
         for prm, d in zip(pos[len(pos) - len(a.defaults):], a.defaults):
@@ -392,7 +432,8 @@ def inline_private_helpers(f: "FuncInfo", depth: int = 3) -> ast.FunctionDef:
         # helper locals that are simply handed back take the caller's names (no copy statement)
         direct = {}
         last = body[-1] if body else None
-        if isinstance(last, ast.Return) and last.value is not None and targets is not None and len(targets) == 1:
+        early = any(isinstance(n, ast.Return) for st in body[:-1] for n in ast.walk(st))
+        if not early and isinstance(last, ast.Return) and last.value is not None and targets is not None and len(targets) == 1:
             rv, tg = last.value, targets[0]
             pairs = []
             if isinstance(rv, ast.Name) and isinstance(tg, ast.Name):
@@ -418,6 +459,11 @@ def inline_private_helpers(f: "FuncInfo", depth: int = 3) -> ast.FunctionDef:
                 return n
 
         body = [Ren().visit(st) for st in body]
+        if any(isinstance(n, ast.Return) for st in body[:-1] for n in ast.walk(st)):
+            body, _all = single_exit(body, targets)
+            if targets is not None and not _all:
+                body.append(ast.Assign(targets=_copy.deepcopy(targets), value=ast.Constant(value=None)))
+            targets = None
         if body and isinstance(body[-1], ast.Return):
             ret = body.pop()
             if targets is not None and ret.value is not None:
@@ -435,6 +481,11 @@ def inline_private_helpers(f: "FuncInfo", depth: int = 3) -> ast.FunctionDef:
     def helper_call(e):
         if isinstance(e, ast.Call) and isinstance(e.func, ast.Name) and eligible(funcs.get(e.func.id)):
             return funcs[e.func.id]
+        # private helper method of the function's own class, called on self
+        if methods and isinstance(e, ast.Call) and isinstance(e.func, ast.Attribute) and isinstance(e.func.value, ast.Name) and e.func.value.id == "self" and f.cls is not None:
+            g = f.cls.resolve(e.func.attr)
+            if g is not None and g.cls is not None and eligible(g):
+                return g
         return None
 
     def process(stmts, level):
@@ -544,6 +595,103 @@ def bool_equivalent(conds, expected: ast.expr, atom_text=None) -> bool | None:
         if got != ev(expected, env):
             return False
     return True
+
+def canonical_returns(func: ast.FunctionDef) -> ast.FunctionDef:
+    """Value-level normal form of a small loop-free function: local temporaries are substituted into
+    their uses, code after an `if` is pushed into both arms, so that every path ends in a `return`
+    (or raise) whose expression is written in terms of parameters and attributes only.  Statements
+    with effects (attribute / subscript stores, bare calls) are kept in place."""
+    import copy as _copy
+
+    def subst(e, env):
+        class Sub(ast.NodeTransformer):
+            def visit_Name(self, n):  # noqa: N802
+                if isinstance(n.ctx, ast.Load) and n.id in env:
+                    return _copy.deepcopy(env[n.id])
+                return n
+
+        return ast.fix_missing_locations(Sub().visit(_copy.deepcopy(e)))
+
+    def stored_names(st):
+        return {n.id for n in ast.walk(st) if isinstance(n, ast.Name) and isinstance(n.ctx, ast.Store)}
+
+    def process(stmts, env):
+        out = []
+        for i, st in enumerate(stmts):
+            if isinstance(st, ast.Assign) and len(st.targets) == 1 and isinstance(st.targets[0], ast.Name):
+                env = dict(env)
+                env[st.targets[0].id] = subst(st.value, env)
+                continue
+            if isinstance(st, ast.Assign) and len(st.targets) == 1 and isinstance(st.targets[0], ast.Tuple) and isinstance(st.value, ast.Tuple) and len(st.targets[0].elts) == len(st.value.elts) and all(isinstance(x, ast.Name) for x in st.targets[0].elts):
+                vals = [subst(v, env) for v in st.value.elts]
+                env = dict(env)
+                for x, v in zip(st.targets[0].elts, vals):
+                    env[x.id] = v
+                continue
+            if isinstance(st, ast.AugAssign) and isinstance(st.target, ast.Name) and st.target.id in env:
+                env = dict(env)
+                env[st.target.id] = ast.BinOp(left=_copy.deepcopy(env[st.target.id]), op=st.op, right=subst(st.value, env))
+                continue
+            if isinstance(st, ast.If):
+                rest = list(stmts[i + 1 :])
+                body = process(list(st.body) + rest, dict(env))
+                orelse = process(list(st.orelse) + rest, dict(env))
+                out.append(ast.copy_location(ast.If(test=subst(st.test, env), body=body or [ast.Pass()], orelse=orelse), st))
+                return out
+            if isinstance(st, ast.Return):
+                out.append(ast.copy_location(ast.Return(value=subst(st.value, env) if st.value is not None else None), st))
+                return out
+            if isinstance(st, ast.Raise):
+                out.append(st)
+                return out
+            if isinstance(st, ast.Try) and not st.finalbody and not any(isinstance(n, (ast.Return,)) for h in st.handlers for n in ast.walk(h)) and all(isinstance(h.body[-1], ast.Raise) for h in st.handlers if h.body):
+                # handlers only re-raise: the value flow is that of body + orelse
+                inner = process(list(st.body) + list(st.orelse) + list(stmts[i + 1 :]), dict(env))
+                out.extend(inner)
+                return out
+            # effectful / compound statement: keep, with known temporaries substituted; names it binds are no longer known
+            kept = subst(st, env) if not isinstance(st, (ast.For, ast.While, ast.With, ast.Try)) else st
+            out.append(kept)
+            killed = stored_names(st)
+            if killed:
+                env = {k: v for k, v in env.items() if k not in killed}
+        return out
+
+    node = _copy.deepcopy(func)
+    doc = [node.body[0]] if node.body and isinstance(node.body[0], ast.Expr) and isinstance(node.body[0].value, ast.Constant) and isinstance(node.body[0].value.value, str) else []
+    node.body = doc + (process(node.body[len(doc):], {}) or [ast.Pass()])
+    return ast.fix_missing_locations(node)
+
+def loops_to_comprehensions(stmts: list) -> dict:
+    """Dict / list locals built by the idiom  ``x = {}`` ; ``for t in it: [if c:] x[k] = v``  (or
+    ``x = []`` ... ``x.append(v)``) at the top level of ``stmts``  ->  {name: equivalent comprehension}."""
+    out = {}
+    for i, st in enumerate(stmts):
+        if not (isinstance(st, ast.Assign) and len(st.targets) == 1 and isinstance(st.targets[0], ast.Name)):
+            continue
+        name = st.targets[0].id
+        is_dict = (isinstance(st.value, ast.Dict) and not st.value.keys) or (isinstance(st.value, ast.Call) and norm(st.value.func) == "dict" and not st.value.args and not st.value.keywords)
+        is_list = (isinstance(st.value, ast.List) and not st.value.elts) or (isinstance(st.value, ast.Call) and norm(st.value.func) == "list" and not st.value.args)
+        if not (is_dict or is_list):
+            continue
+        loops = [x for x in stmts[i + 1 :] if isinstance(x, ast.For) and any(isinstance(n, ast.Name) and n.id == name for n in ast.walk(x))]
+        others = [x for x in stmts[i + 1 :] if not isinstance(x, ast.For) and any(isinstance(n, ast.Name) and n.id == name and isinstance(n.ctx, ast.Store) for n in ast.walk(x))]
+        if len(loops) != 1 or others or loops[0].orelse:
+            continue
+        lp = loops[0]
+        body, conds = lp.body, []
+        while len(body) == 1 and isinstance(body[0], ast.If) and not body[0].orelse:
+            conds.append(body[0].test)
+            body = body[0].body
+        if len(body) != 1:
+            continue
+        b = body[0]
+        gen = ast.comprehension(target=lp.target, iter=lp.iter, ifs=conds, is_async=0)
+        if is_dict and isinstance(b, ast.Assign) and len(b.targets) == 1 and isinstance(b.targets[0], ast.Subscript) and norm(b.targets[0].value) == name:
+            out[name] = ast.fix_missing_locations(ast.copy_location(ast.DictComp(key=b.targets[0].slice, value=b.value, generators=[gen]), st))
+        elif is_list and isinstance(b, ast.Expr) and isinstance(b.value, ast.Call) and norm(b.value.func) == f"{name}.append" and len(b.value.args) == 1:
+            out[name] = ast.fix_missing_locations(ast.copy_location(ast.ListComp(elt=b.value.args[0], generators=[gen]), st))
+    return out
 
 def _decorator_name(d: ast.expr) -> str:
     if isinstance(d, ast.Call):
